@@ -386,6 +386,7 @@ func TestC08(t *testing.T) {
 		c08ManyHosts(ev, driver, 100)
 		driver := driver
 		parallelCases(vlib.Scale(60, 1500), 8, func(i int) { c08PeersReadFails(ev, driver, i) })
+		parallelCases(vlib.Scale(60, 1500), 8, func(i int) { c08RepeatedRequests(ev, driver, i) })
 	}
 	finish(t, ev)
 }
